@@ -122,6 +122,14 @@ func CopyFunc(fn func(out, in interface{}) error) Cloner {
 // then copy the input to the newly created value.
 func CodecCloner(codec encoding.Codec) Cloner {
 	return CopyFunc(func(out, in interface{}) error {
+		if pmIn, ok := in.(proto.Message); ok {
+			if pmOut, ok := out.(proto.Message); ok {
+				// bytes of one message type often parse as another one
+				if nameIn, nameOut := internal.MessageName(pmIn), internal.MessageName(pmOut); nameIn != nameOut {
+					return fmt.Errorf("cannot copy a %q into a %q", nameIn, nameOut)
+				}
+			}
+		}
 		if b, err := codec.Marshal(in); err != nil {
 			return err
 		} else if err := codec.Unmarshal(b, out); err != nil {
